@@ -531,6 +531,30 @@ theorem deferred_b (env : Env) :
   all_goals (simp +zetaDelta only [NakBound] at *; grind)'''}, {},
         "Destination handler: the retry counter of the NAK sequence never reaches its limit — for every call\n"
         "sequence (C04).", inline=("modP",), extra_imports="import CfdpVerif.Lemmas.StdDo")
+    # receiver side of C15's causal order (definitions: Lemmas/IndPhase.lean, hand-written)
+    names = [t[0] for t in DEST]
+    pre = names[:names.index("checkLimitHandling") + 1]
+    n_only = [x for x in pre if x != "emitInd"] + ["checkInserted", "idleFsm", "getNextPacket", "cancelRequest"]
+    files["InvDestPhaseN.lean"] = gen(
+        "Dest", "PhaseN", "NoFin", "n", "open Cfdp.Dest.Phase", "simp_all [NoFin, since]", {},
+        {"emitInd:md": "emitInd_md_n env L0 _ _ _ _ _ _", "emitInd:eofrecv": "emitInd_eofRecv_n env L0 _",
+         "emitInd:segrecv": "emitInd_seg_n env L0 _ _ _"},
+        "Destination handler: every method that can run before the completion of a transfer (everything but\n"
+        "`_notice_of_completion` and its callers) issues no Transaction-Finished indication (C15, receiver order).",
+        only=n_only, extra_imports="import CfdpVerif.Lemmas.IndPhase", params="(L0 : List Ind)")
+    c_only = ["addPacket", "modP", "getP", "transmissionMode", "resetInternal", "noticeOfCancellation",
+              "declareFault", "prepareEofAckPacket", "noticeOfCompletion", "handleTransferCompletion",
+              "prepareFinishedPdu", "startPositiveAck", "handleFinishedPduSent", "resendFinished",
+              "handlePositiveAck", "handleWaitingFinAck", "fsmFromWaitingForFinishedAck",
+              "fsmFromSendingFinishedPdu", "fsmFromTransferCompletion"]
+    files["InvDestPhaseC.lean"] = gen(
+        "Dest", "PhaseC", "Closed", "c", "open Cfdp.Dest.Phase",
+        "first | (simp_all [Closed, since, CS]; done) | (simp_all [Closed, since, CS]; grind)", {},
+        {"emitInd:finished": "emitInd_fin_c env L0 _ _"},
+        "Destination handler: the completion phase is closed — from the steps TRANSFER_COMPLETION,\n"
+        "SENDING_FINISHED_PDU, WAITING_FOR_FINISHED_ACK (and IDLE) the methods of that phase lead only to these\n"
+        "steps and issue only Transaction-Finished indications (C15, receiver order).",
+        only=c_only, extra_imports="import CfdpVerif.Lemmas.IndPhase", params="(L0 : List Ind)")
     for n, t in files.items():
         (OUT / n).write_text(t)
         print("wrote", n)
